@@ -215,6 +215,9 @@ func (d *Dialer) dial() (*DialContext, error) {
 	if d.mode == Advertise {
 		restore, err = d.setAutoconf()
 		if err != nil {
+			// The caller never sees this connection, so close it here rather
+			// than leaking the socket on every failed attempt.
+			_ = conn.Close()
 			return nil, err
 		}
 	}
